@@ -497,7 +497,7 @@ func c16engine(out *rec.Out, rng *rec.Rng, tier string, stats map[string]int) {
 			{"shared", c16str("A")}, {"n8", c16int("int8", -128, 0)}, {"big", c16int("int64", 9223372036854775807, 0)},
 			{"f", c16f64(1e-7)}, {"u", c16str("héllo ✓ 日本語 🎉")}, {"st", c16struct(1, "x", &one, 7, 0.25, []c16gv{c16nil()}, 9, true)},
 			{"deep", c16nest(12, c16str("leaf"), true)}, {"pt", c16ptr(c16f64(2.5))}},
-			objs:    []c16kv{{"do1", c16map(c16kv{"a", c16str("ac")})}, {"do2", c16slice(c16int("int", 1, 0))}},
+			objs: []c16kv{{"do1", c16map(c16kv{"a", c16str("ac")})}, {"do2", c16slice(c16int("int", 1, 0))}},
 			results: []c16kv{{"r1", c16int("int", 1, 0)}, {"r2", c16map(c16kv{"z", c16slice(c16bool(false))})}, {"undeclared", c16str("dropped")},
 				{"shared", c16str("A2")}},
 			dobjs: []c16kv{{"out1", c16map(c16kv{"o", c16str("oo")})}, {"undeclaredOut", c16str("dropped")}}},
